@@ -98,6 +98,10 @@ def _simple_helper(fn):
     body = [s for s in fn.body if not (isinstance(s, ast.Expr) and isinstance(s.value, ast.Constant))]
     if not body:
         return None
+    if all(n.value is None for s in body for n in ast.walk(s) if isinstance(n, ast.Return)) and any(isinstance(n, ast.Return) for s in body for n in ast.walk(s)):
+        body = _structure_early_returns(body)
+        if body is None:
+            return None
     if not isinstance(body[-1], ast.Return) or body[-1].value is None:
         # a procedure: no return anywhere -> its "value" is None
         if any(isinstance(n, ast.Return) for s in body for n in ast.walk(s)):
@@ -116,6 +120,32 @@ def _simple_helper(fn):
     if fn.decorator_list:
         return None
     return [x.arg for x in a.args], body[:-1], body[-1].value, a.defaults
+
+
+def _structure_early_returns(body):
+    """procedure body with bare `return` statements -> equivalent body without them:
+        if c: A ; return          ->   if c: A
+        REST                            else: REST
+    (only top-level ifs without else whose last statement is the bare return, and a trailing bare return); None when another shape occurs"""
+    import copy
+    out = []
+    for i, s_ in enumerate(body):
+        if isinstance(s_, ast.Return) and s_.value is None:
+            return out if all(not any(isinstance(n, ast.Return) for n in ast.walk(x)) for x in out) else None
+        if isinstance(s_, ast.If) and not s_.orelse and s_.body and isinstance(s_.body[-1], ast.Return) and s_.body[-1].value is None \
+                and not any(isinstance(n, ast.Return) for x in s_.body[:-1] for n in ast.walk(x)):
+            rest = _structure_early_returns(body[i + 1:])
+            if rest is None:
+                return None
+            new = ast.If(test=s_.test, body=copy.deepcopy(s_.body[:-1]) or [ast.Pass()], orelse=rest)
+            ast.copy_location(new, s_)
+            ast.fix_missing_locations(new)
+            out.append(new)
+            return out
+        if any(isinstance(n, ast.Return) for n in ast.walk(s_)):
+            return None
+        out.append(s_)
+    return out
 
 
 class _Rename(ast.NodeTransformer):
